@@ -31,13 +31,21 @@ CLAIMED = {
              'JSON with the same data for every indent), compact output has no whitespace, every '
              'line break is followed by depth*best_indent spaces; json.dumps is modelled on code '
              'points and proved to yield ASCII-only valid string tokens; verbatim numbers are JSON '
-             'numbers (regex inclusion by reflection). Tie: exhaustive step-level comparison of the '
+             'numbers (regex inclusion by reflection). Character level: an RFC 8259 reference parser '
+             'written from the grammar (Spec/JsonParse: white space, strings with every escape and '
+             'surrogate pairs, numbers, arrays, objects) reads the TEXT the machine writes - for every '
+             'tree, indent, ensure_ascii mode and line break - back as exactly the JSON value of the '
+             'tree (C07_emitted_text_is_json, induction over the parser, no size bound), every string '
+             'token denotes its string code point by code point (C07_string_token_denotes), and two '
+             'formatting options give texts denoting the same value; the reference parser is compared '
+             'with json.loads on every text produced, on mutations and on edge cases. Tie: exhaustive step-level comparison of the '
              'real emit_json with the model over (state x event x indent), tree-level comparison on '
              'all small shapes x indent x ensure_ascii, json.dumps vs the model encoder.',
         note=NOTE_COMMON + 'PyYAML serializer event order for tree-shaped nodes; Emitter.best_indent '
              'read from the live instance; repr(float)/str(int) shapes (sampled).',
-        technique='Lean 4 refinement proof (stack machine vs recursive renderer vs canonical JSON) '
-                  '+ exhaustive step-table correspondence',
+        technique='Lean 4 refinement proof (stack machine vs recursive renderer vs canonical JSON) and '
+                  'parse-back proof against an RFC 8259 reference parser + exhaustive step-table '
+                  'correspondence',
         ref='DESIGN.md 7 (C07)'),
 }
 
